@@ -172,9 +172,9 @@ var ruleLowerCase = &core.Rule{ID: "R12.3", Min: 4,
 					continue
 				}
 				rs := fde.FindRangeOver(f, val)
-				lf := f             // function holding the lower-casing loop
+				lf := f                  // function holding the lower-casing loop
 				var lval ssa.Value = val // the slice it ranges over
-				var via *ssa.Call   // helper call, when the loop was extracted
+				var via *ssa.Call        // helper call, when the loop was extracted
 				if len(rs) != 1 {
 					for _, ref := range *val.Referrers() {
 						hc, ok := ref.(*ssa.Call)
@@ -575,7 +575,6 @@ func hasTokenizerNext(b *ssa.BasicBlock) bool {
 	}
 	return false
 }
-
 
 // derivesFrom: v is computed (through extracts, assertions, local cells,
 // field reads, conversions, slicing, phis and module / string helper calls)
